@@ -1021,6 +1021,9 @@ fn enumerated(n: usize, scheme: u8, mask: u64, deco: bool) -> Vec<MQ> {
 }
 
 impl Check for C06 {
+    fn stall_secs(_tier: Tier) -> Option<u64> {
+        Some(900)
+    }
     type Case = Case;
     const ID: &'static str = "C06";
     fn rule() -> String {
